@@ -88,6 +88,7 @@ BOUNDS = {
         "page lists [f], [n, f], [f, f4] x 3 local lists x 5 positions; filter= lists of <=2 x {def, buffered def, blocks, text} x 2 (B, D, P); buffer_filters and default_filters [f], [f, g], [g, f]; all x {Template, TemplateLookup} x 2 values",
         "vals": "9 filters x {n+f, n+f+f1, default_filters=[f], default_filters=[f]+f2} x {body, def} x 14 values in sequence (True, 1, 1.0, False, 0, 0.0, Decimal 1 / 1.0, two equal objects, one object with two texts, a list, a str), forward and reversed",
         "fpart": "15 spellings of the filter part x 2 default_filters x {body, def} x 2 values; 9 attribute spellings x {def, buffered def, 2 blocks, text, page}; 4 page lists naming context callables x 5 positions x 3 local lists",
+        "recompile": "one template file compiled twice in one process under different default_filters / buffer_filters: 4 templates x 30 ordered pairs of 6 option sets x routes {TemplateLookup(directories), Template(filename), lookup with a module directory per configuration}",
         "shared": "15 templates (3 bodies x 5 page settings): all 225 ordered pairs x 2 default_filters lists x {one list object given to Template() twice, one TemplateLookup}; every template re-rendered after each compile; 3 input lists compared afterwards",
         "bind": "lists of <=2 with a user filter x binding {<%! %>, imports=, <% %> local} x D/P/B names from {imports=, <%! %>} x 5 positions x 2 (D,P); decoy context names x lists <=2; raising stages",
         "spell": "string atoms (content 1 of 12 symbols x 4 filter parts, content 2 x 2; 4 quote styles, r/f prefixes); 26 core atoms x 40 wrappers x 2; 2 atoms x 40^2 wrappers x 2; "
@@ -103,6 +104,7 @@ BOUNDS = {
         "strict": "as quick",
         "fpart": "as quick",
         "shared": "as quick with 4 default_filters lists",
+        "recompile": "as quick",
         "spell": "quick with 4 filter parts for atoms and depth 1, depth 2 over 4 atoms x 40^2 x 2; + atoms with content 3 x 2; 26 core atoms x 40^2 wrappers; 2 atoms x 40^3 wrappers",
     },
 }
@@ -601,6 +603,86 @@ def check_shared(case, st):
         report(st, sig, case, oracle, e, o)
 
 
+def recompile_cases(tier, seed):
+    """one template FILE compiled several times in one process by lookups / Templates that differ only in their
+    default_filters / buffer_filters: every ordered pair of option sets, each compile compared with the reference
+    for its own options (whatever the process remembers from the earlier compile of the same file must not matter)"""
+    _, values = alphabet(seed)
+    progs = [
+        pipe_prog(["f1"], None, None, "def"),
+        tagf_prog(["f1"], "def-bf", [], None, None, None),
+        tagf_prog([], "def-bf", [], None, None, ["f4"]),
+        pipe_prog([], None, ["n", "f4"], "body"),
+    ]
+    opts = [(["h"], ["f5"]), (["h"], ["f5", "trim"]), (["h"], []), (["f3", "h"], ["f5"]), (["str"], ["trim", "f5"]), (["decode.utf8"], ["f5"])]
+    for route in ("lookup-dir", "template-filename", "lookup-dir+modules"):
+        for pi, p in enumerate(progs):
+            for a in opts:
+                for b in opts:
+                    if a != b:
+                        yield {"kind": "recompile", "route": route, "prog": p, "pi": pi, "opts": [list(a), list(b)], "v": values[0]}
+
+
+def check_recompile(case, st):
+    import os
+    from mako.lookup import TemplateLookup
+    from mako.template import Template
+
+    imports = ["from mc.c02_env import " + c02_ref.MOD_NAMES]
+    d = core.scratch_dir("c02rc")
+    texts = set()
+    bad = []
+    for i, (D, B) in enumerate(case["opts"]):
+        prog = dict(case["prog"], D=list(D), B=list(B), fam="recompile")
+        text, _ = c02_ref.print_program(prog)
+        texts.add(text)
+        if len(texts) > 1:
+            st.extra["recompile_text_depends_on_options"] = st.extra.get("recompile_text_depends_on_options", 0) + 1
+            return
+        path = os.path.join(d, "t.html")
+        if i == 0:
+            with open(path, "w", encoding="utf-8") as f:
+                f.write(text)
+        ctx = c02_env.resolve(c02_ref.context_for(prog, case["v"]))
+        exp = c02_ref.reference(prog, ctx)
+        kw = dict(default_filters=list(D), buffer_filters=list(B), imports=list(imports))
+        try:
+            if case["route"] == "template-filename":
+                t = Template(filename=path, **kw)
+            elif case["route"] == "lookup-dir":
+                t = TemplateLookup(directories=[d], **kw).get_template("/t.html")
+            else:
+                # each option set has its own module directory (one module directory serves one configuration)
+                t = TemplateLookup(directories=[d], module_directory=os.path.join(d, "m%d" % i), **kw).get_template("/t.html")
+            obs = ("ok", t.render_unicode(**ctx))
+        except BaseException as e:  # noqa
+            obs = ("exc", type(e).__name__, str(e)[:200])
+        st.evaluations += 1
+        st.transitions += exp[2]
+        st.oracles["recompile_render_equals_reference"] += 1
+        st.outcomes[("recompile", exp[0], obs[0] if obs[0] == "ok" else "exc:" + obs[1])] += 1
+        ok = True
+        if exp[0] == "ok":
+            ok = (obs[0] == "ok" and (obs[1] == exp[1] or obs[1] in exp[3])) or (obs[0] != "ok" and c02_ref.RAISES in exp[3])
+        elif exp[0] == "error":
+            ok = obs[0] != "ok"
+        if not ok:
+            what = []
+            if i:
+                pd, pb = case["opts"][0]
+                what = [n for n, x, y in (("default_filters", pd, D), ("buffer_filters", pb, B)) if x != y]
+            sig = "recompile:%s:%s" % ("diff" if obs[0] == "ok" else "exc:" + obs[1], "first compile of the file" if i == 0 else "the same file compiled again with other " + "+".join(what))
+            bad.append((sig, "render: the file compiled with these options renders as the reference for these options", [exp[1]], list(obs)))
+    st.states += 1
+    st.traces += 1
+    st.nontrivial += 1
+    for sig, oracle, e, o in bad[:1]:
+        report(st, sig, case, oracle, e, o)
+    import shutil
+
+    shutil.rmtree(d, ignore_errors=True)
+
+
 def spell_prog(src, suffix, filters, pre="[", post="]"):
     body = []
     if pre:
@@ -874,6 +956,8 @@ def plan(tier, seed):
         jobs.append({"kind": "strict", "tier": tier, "seed": seed, "shard": i, "nshards": N_STRICT})
     for i in range(N_SHARED):
         jobs.append({"kind": "shared", "tier": tier, "seed": seed, "shard": i, "nshards": N_SHARED})
+    for i in range(2):
+        jobs.append({"kind": "recompile", "tier": tier, "seed": seed, "shard": i, "nshards": 2})
     return jobs
 
 
@@ -913,6 +997,14 @@ def _run_job2(job, st):
             nprog += 1
         st.extra["histories_shared"] = nprog
         return st
+    if job["kind"] == "recompile":
+        for i, case in enumerate(recompile_cases(tier, seed)):
+            if i % ns != sh:
+                continue
+            check_recompile(case, st)
+            nprog += 1
+        st.extra["histories_recompile"] = nprog
+        return st
     if job["kind"] == "spell":
         for i, (prog, vi, fam, tags) in enumerate(gen_spell(tier, seed)):
             if i % ns != sh:
@@ -942,8 +1034,8 @@ def _run_job2(job, st):
 
 def replay(case):
     st = Stats()
-    if case.get("kind") == "shared":
-        check_shared(case, st)
+    if case.get("kind") in ("shared", "recompile"):
+        (check_shared if case["kind"] == "shared" else check_recompile)(case, st)
         if st.violations:
             return False, "reproduced: %r" % (st.violations[0],)
         return True, "holds"
